@@ -231,6 +231,8 @@ contract(Contract(
         "line_count": "len(lines) == 1 + len(element.children)",
         "prefix_consumed": "self._prefix == self._second_prefix and self._second_prefix == old(self._second_prefix)",
         "flags": "not self._skip_next_blank_line",
+        # C10: the item after a table gets its separator (no suppression left over from a blank line before the table)
+        "item_break_not_suppressed": Clause("not self._suppress_item_break", props=["C10", "C01"]),
     },
     canaries=[
         ('normalized_delimiter = "---:"', 'normalized_delimiter = ":---"', None, ["inv-preserve[loop0.aligned"]),
